@@ -384,6 +384,10 @@ func checkC19(p *Prog, r *Result, tier string) {
 				switch {
 				case lenGuarded(in, cont):
 					r.Report("C19.R3", name, construct, Discharged, "dominated by a length test of the same container", p.Pos(in.Pos()), nil, true)
+				case positionFound(in, cont):
+					r.Report("C19.R3", name, construct, Discharged, "the position is the result of an Index* search in the same string, tested for 'not found' on a dominating branch", p.Pos(in.Pos()), nil, true)
+				case madeForRange(f, in, cont):
+					r.Report("C19.R3", name, construct, Discharged, "the container was made with the length of the slice whose range index is used (position-for-position fill)", p.Pos(in.Pos()), nil, true)
 				case strings.HasPrefix(name, internalBounds) && !strings.Contains(name, "UnmarshalJSON"):
 					r.Report("C19.R3", name, construct, Discharged, "internal: position arithmetic on the index itself (bisection / shifting); not judged (C02 not-decided clause)", p.Pos(in.Pos()), nil, false)
 				case vetted != "":
@@ -489,6 +493,177 @@ func sameValue(a, b ssa.Value) bool {
 	if la, ok := a.(*ssa.UnOp); ok && la.Op == token.MUL {
 		if lb, ok := b.(*ssa.UnOp); ok && lb.Op == token.MUL {
 			if al, ok := la.X.(*ssa.Alloc); ok && la.X == lb.X && !al.Heap || (ok && la.X == lb.X) {
+				return true
+			}
+		}
+	}
+	return false
+}
+
+// positionFound: every position used by the instruction is i or i+1 where i is what strings/bytes Index* (IndexByte,
+// LastIndex, IndexRune, ...) returned for the same container, and some dominating branch compares i with 0 or -1.
+func positionFound(at ssa.Instruction, cont ssa.Value) bool {
+	var idx []ssa.Value
+	switch v := at.(type) {
+	case *ssa.Slice:
+		for _, x := range []ssa.Value{v.Low, v.High, v.Max} {
+			if x != nil {
+				idx = append(idx, x)
+			}
+		}
+	case *ssa.IndexAddr:
+		idx = append(idx, v.Index)
+	case *ssa.Index:
+		idx = append(idx, v.Index)
+	case *ssa.Lookup:
+		idx = append(idx, v.Index)
+	}
+	if len(idx) == 0 {
+		return false
+	}
+	for _, x := range idx {
+		if c, ok := x.(*ssa.Const); ok && c.Value != nil && c.Value.String() == "0" {
+			continue
+		}
+		if bo, ok := x.(*ssa.BinOp); ok && bo.Op == token.ADD {
+			if c, ok := bo.Y.(*ssa.Const); ok && c.Value != nil && c.Value.String() == "1" {
+				x = bo.X
+			}
+		}
+		call, ok := x.(*ssa.Call)
+		if !ok {
+			return false
+		}
+		g := call.Call.StaticCallee()
+		if g == nil || g.Object() == nil || g.Object().Pkg() == nil || (g.Object().Pkg().Path() != "strings" && g.Object().Pkg().Path() != "bytes") || !(strings.HasPrefix(g.Name(), "Index") || strings.HasPrefix(g.Name(), "LastIndex")) {
+			return false
+		}
+		if len(call.Call.Args) == 0 || !sameValue(call.Call.Args[0], cont) {
+			return false
+		}
+		tested := false
+		b := at.Block()
+		for d := b.Idom(); d != nil; d = d.Idom() {
+			ifi, ok := d.Instrs[len(d.Instrs)-1].(*ssa.If)
+			if !ok {
+				continue
+			}
+			bo, ok := ifi.Cond.(*ssa.BinOp)
+			if !ok || bo.X != ssa.Value(call) {
+				continue
+			}
+			if c, ok := bo.Y.(*ssa.Const); ok && c.Value != nil && (c.Value.String() == "0" || c.Value.String() == "-1") {
+				tested = true
+			}
+		}
+		if !tested {
+			return false
+		}
+	}
+	return true
+}
+
+// lengthSourceOf: the slice S such that cont was made with make(T, len(S)): directly, or as the member of an object
+// built by a constructor that stores that parameter into the member (and nothing else into it).
+func lengthSourceOf(fn *ssa.Function, cont ssa.Value, depth int) ssa.Value {
+	switch v := cont.(type) {
+	case *ssa.MakeSlice:
+		if call, ok := v.Len.(*ssa.Call); ok {
+			if bi, ok := call.Call.Value.(*ssa.Builtin); ok && bi.Name() == "len" {
+				return call.Call.Args[0]
+			}
+		}
+	case *ssa.UnOp:
+		if v.Op != token.MUL || depth <= 0 {
+			return nil
+		}
+		fa, ok := v.X.(*ssa.FieldAddr)
+		if !ok {
+			return nil
+		}
+		// the member is not assigned in this function
+		for _, b := range fn.Blocks {
+			for _, in := range b.Instrs {
+				if st, ok := in.(*ssa.Store); ok {
+					if fa2, ok := st.Addr.(*ssa.FieldAddr); ok && fa2.Field == fa.Field && types.Identical(fa2.X.Type(), fa.X.Type()) {
+						return nil
+					}
+				}
+			}
+		}
+		call, ok := fa.X.(*ssa.Call)
+		if !ok {
+			return nil
+		}
+		g := call.Call.StaticCallee()
+		if g == nil || g.Blocks == nil {
+			return nil
+		}
+		// in the constructor: exactly one store to that member, of a parameter, on a fresh object
+		var par *ssa.Parameter
+		n := 0
+		for _, b := range g.Blocks {
+			for _, in := range b.Instrs {
+				if st, ok := in.(*ssa.Store); ok {
+					if fa2, ok := st.Addr.(*ssa.FieldAddr); ok && fa2.Field == fa.Field && types.Identical(fa2.X.Type(), fa.X.Type()) {
+						n++
+						if _, fresh := fa2.X.(*ssa.Alloc); fresh {
+							par, _ = st.Val.(*ssa.Parameter)
+						}
+					}
+				}
+			}
+		}
+		if n != 1 || par == nil {
+			return nil
+		}
+		for i, q := range g.Params {
+			if q == par && i < len(call.Call.Args) {
+				return lengthSourceOf(fn, call.Call.Args[i], depth-1)
+			}
+		}
+	}
+	return nil
+}
+
+// madeForRange: the index is the position of a range over S (a dominating branch compares it with len(S)) and the
+// container has the length of S; S is a member that this function does not assign.
+func madeForRange(fn *ssa.Function, at ssa.Instruction, cont ssa.Value) bool {
+	ia, ok := at.(*ssa.IndexAddr)
+	if !ok {
+		return false
+	}
+	src := lengthSourceOf(fn, cont, 1)
+	if src == nil {
+		return false
+	}
+	if _, f, _ := loadedField(src); f != nil {
+		for _, b := range fn.Blocks {
+			for _, in := range b.Instrs {
+				if st, ok := in.(*ssa.Store); ok {
+					if fa, ok := st.Addr.(*ssa.FieldAddr); ok {
+						if _, f2, _ := fieldOf(fa); f2 == f {
+							return false
+						}
+					}
+				}
+			}
+		}
+	} else if _, isPar := src.(*ssa.Parameter); !isPar {
+		return false
+	}
+	b := at.Block()
+	for d := b.Idom(); d != nil; d = d.Idom() {
+		ifi, ok := d.Instrs[len(d.Instrs)-1].(*ssa.If)
+		if !ok {
+			continue
+		}
+		bo, ok := ifi.Cond.(*ssa.BinOp)
+		if !ok || bo.Op != token.LSS || bo.X != ia.Index || !(d.Succs[0] == b || d.Succs[0].Dominates(b)) {
+			continue
+		}
+		if call, ok := bo.Y.(*ssa.Call); ok {
+			if bi, ok := call.Call.Value.(*ssa.Builtin); ok && bi.Name() == "len" && sameValue(call.Call.Args[0], src) {
 				return true
 			}
 		}
@@ -634,7 +809,16 @@ func checkNilDecoded(p *Prog, r *Result, rule string) {
 			r.Report(rule, s.fn, "nil test of "+s.what, Undecided, "function not found", "", nil, false)
 			continue
 		}
-		if hasNilTest(fn, s.elem) {
+		tested := hasNilTest(fn, s.elem)
+		if !tested {
+			// the test may sit in a private helper of the same function (decoder split into parts)
+			for _, g := range calleesWithin(p, fn, 2) {
+				if g != fn && inSod(p, g) && hasNilTest(g, s.elem) {
+					tested = true
+				}
+			}
+		}
+		if tested {
 			r.Report(rule, FuncName(fn), "nil test of "+s.what, Discharged, "", p.Pos(fn.Pos()), nil, true)
 		} else {
 			r.Report(rule, FuncName(fn), "nil test of "+s.what, Violated, "the "+s.what+" are used without a nil test: a JSON null there is a nil pointer dereference on the first access to the collection", p.Pos(fn.Pos()), nil, true)
@@ -997,6 +1181,34 @@ func callersOf(fn *ssa.Function) []*ssa.Function {
 	return out
 }
 
+// decoderOf: fn is an UnmarshalJSON method, or a private helper that only UnmarshalJSON methods of one type call
+// (directly or through such helpers): the decoder it is a part of, else nil.
+func decoderOf(fn *ssa.Function) *ssa.Function { return decoderOfN(fn, 3) }
+
+func decoderOfN(fn *ssa.Function, depth int) *ssa.Function {
+	if fn == nil {
+		return nil
+	}
+	if fn.Name() == "UnmarshalJSON" && fn.Signature.Recv() != nil {
+		return fn
+	}
+	if depth <= 0 || fn.Object() == nil || fn.Object().Exported() {
+		return nil
+	}
+	var dec *ssa.Function
+	for _, c := range callersOf(fn) {
+		if c == fn {
+			continue
+		}
+		d := decoderOfN(c, depth-1)
+		if d == nil || (dec != nil && d != dec) {
+			return nil
+		}
+		dec = d
+	}
+	return dec
+}
+
 // ---- C19.R8 / R9: decoded index versus descriptors; maps of the decoded index --------------------------------
 
 // checkIndexMatchesDescriptors: the comparators and the insertion assert the dynamic type announced by the cast of
@@ -1059,12 +1271,18 @@ func checkDecodedMaps(p *Prog, r *Result, rule string) {
 			continue
 		}
 		made := false
-		for _, b := range dec.Blocks {
-			for _, in := range b.Instrs {
-				if s, ok := in.(*ssa.Store); ok {
-					if _, f, _ := fieldOf(s.Addr); f == fld {
-						if _, ok := s.Val.(*ssa.MakeMap); ok {
-							made = true
+		// the decoder or one of its parts (private helpers only the decoder calls)
+		for _, g := range calleesWithin(p, dec, 2) {
+			if g != dec && decoderOf(g) != dec {
+				continue
+			}
+			for _, b := range g.Blocks {
+				for _, in := range b.Instrs {
+					if s, ok := in.(*ssa.Store); ok {
+						if _, f, _ := fieldOf(s.Addr); f == fld {
+							if _, ok := s.Val.(*ssa.MakeMap); ok {
+								made = true
+							}
 						}
 					}
 				}
